@@ -15,3 +15,16 @@ package sync
 //gvc:func PutByteSlice
 //gvc:  trusted
 //gvc:end
+
+// GetBufioReader: a pooled bufio.Reader reset to read from reader: it yields
+// reader's remaining bytes and, being a bufio.Reader, never hands out data
+// together with an error (trusted dependency behaviour).
+//gvc:func GetBufioReader
+//gvc:  trusted
+//gvc:  params reader
+//gvc:  ensures wrap: result != nil && result.#strict && result.#data == reader.#data && result.#pos == reader.#pos && result.#n == reader.#n
+//gvc:end
+
+//gvc:func PutBufioReader
+//gvc:  trusted
+//gvc:end
